@@ -709,7 +709,7 @@ def selftest():
 FAMILIES = [
     Family("slots", evaluate, enumerate=enum_slots, shards_quick=4, shards_thorough=8, exhaustive=True,
            required_labels=["feat:index-unique", "feat:strict-filter", "check:in_range", "index=multi"]),
-    Family("roundtrip", evaluate, strategy=g.case_st, n_quick=85, n_thorough=2500, shards_quick=6, shards_thorough=16,
+    Family("roundtrip", evaluate, strategy=g.case_st, n_quick=170, n_thorough=2500, shards_quick=6, shards_thorough=16,
            required_labels=["mode=clean", "mode=wild", "legs_scored=3", "index=multi", "check-options-nondefault",
                             "feat:dup-check-names", "feat:frame-checks", "feat:index-unique", "feat:strict-filter"]),
 ]
